@@ -204,6 +204,38 @@ class RecordModel(Model):
             else:
                 rec.fields[f] = self.world.ext.havoc_like(ex, cur, "%s_%s" % (name, f))
 
+    _DUNDER = {"BitAnd": "__and__", "BitOr": "__or__", "BitXor": "__xor__", "Add": "__add__", "Sub": "__sub__"}
+
+    def binop(self, ex, op, a, b, node):
+        """a <op> b with a record on the left: the class's dunder method (a contracted repo function)"""
+        nm = self._DUNDER.get(type(op).__name__)
+        if nm is None or not (isinstance(a, VRec) and a.model is self):
+            raise Unsupported("operator %s on %s" % (type(op).__name__, self.name))
+        f = self.getattr(ex, a, nm, node)
+        return f.call(ex, [b], {})
+
+    def construct_inline(self, ex, cls, args, kwargs, node):
+        """C(...): allocate an instance and run the body of C.__init__ in place.  __init__ is itself
+        under contract (its body is proved against it); inlining a constructor at its call sites is
+        strictly more precise than applying that contract, and keeps the identity of the objects
+        stored into the new instance's fields."""
+        rec = VRec(self, {}, ref=ex.fresh(self.clsname.lower(), V))
+        ex.assume(rec.ref != sym.NONE)
+        ex.alloc_count = getattr(ex, "alloc_count", 0) + 1
+        ex.created.add(id(rec))
+        r = self.class_model.find("__init__")
+        if r is None:
+            if args or kwargs:
+                ex.throw("TypeError", node, origin="ctor-arity")
+            return rec
+        kind, n, owner = r
+        fsrc = extract.get_function(owner.relpath, "%s.__init__" % owner.clsname)
+        ex.used_callees.add("%s:%s" % (owner.relpath, fsrc.qualname))
+        env = self.world.bind_params(ex, fsrc, [rec] + list(args), kwargs)
+        fr = Frame(fsrc, env, contract=None)
+        ex.run_body(fr)
+        return rec
+
     def enter_cm(self, ex, rec, node):
         r = self.class_model.find("__enter__")
         if r is None:
